@@ -17,6 +17,7 @@ def gen_models(ctx, n, pid=None):
                                      wildcards=wc))
     ms += handmade()
     ms += wide_models(rng, 4 if n < 1000 else 20)
+    ms += odd_names(ctx, max(30, n // 8), pid)
     if pid == "C11":
         ms += wild_cycles(rng, max(40, n // 6))
         ms += wild_cycles_below_subtraction(rng, max(40, n // 6))
@@ -34,6 +35,56 @@ def gen_models(ctx, n, pid=None):
     if pid in ("C05", "C10"):
         ms += dangling_ttus(rng, max(40, n // 8))
     return ms
+
+
+def rename_model(m, tmap, rmap):
+    """the same model with other type and relation names (both maps injective)"""
+    def ty(x):
+        return S(tmap.get(T(x), T(x)))
+    def rl(x):
+        return S(rmap.get(T(x), T(x)))
+    def us(u):
+        if u[0] == 2:
+            return [2, rl(u[1])]
+        if u[0] == 3:
+            return [3, rl(u[1]), rl(u[2])]
+        if u[0] in (4, 5):
+            return [u[0]] + [us(c) for c in u[1:]]
+        if u[0] == 6:
+            return [6, us(u[1]), us(u[2])]
+        return u
+    def ref(r):
+        return [ty(r[0]), ([1, rl(r[1][1])] if r[1][0] == 1 else r[1])] + list(r[2:])
+    types = []
+    for t in m[1]:
+        meta = [[[[rl(k), [[ref(r) for r in rm[0]]] + list(rm[1:])] for k, rm in md[0]]] + list(md[1:]) for md in t[2]]
+        types.append([ty(t[0]), [[rl(k), us(u)] for k, u in t[1]], meta])
+    return [m[0], types, m[2]]
+
+
+def odd_names(ctx, n, pid=None):
+    """generated models under unusual but legal names: a type called like an operator node's prefix ('union', 'intersection',
+    'exclusion'), type names with characters outside ASCII (reachable through JSON; a label is cut by characters, a Go string
+    by bytes), relation names that differ only in the case of their letters.  Nothing in a graph may depend on the spelling."""
+    rng = ctx.rng
+    out = []
+    tpool = ["union", "intersection", "exclusion", "\u00fcser", "\u00dcn\u00efon", "\u7528\u6237", "t\u00e9am"]
+    twins = [("viewer", "Viewer"), ("editor", "EDITOR"), ("member", "Member"), ("a", "A")]
+    for _ in range(n):
+        m = gg.gen_graph_model(rng, profile=rng.choice(["acyclic", "acyclic", "cyclic"]), max_types=rng.choice([2, 3, 4]),
+                               max_rels=rng.choice([2, 3, 4]), depth=rng.choice([1, 2, 2]), wildcards=0.35 if pid == "C11" else 0.2)
+        names = [T(t[0]) for t in m[1]]
+        tmap = dict(zip(rng.sample(names, min(len(names), rng.choice([1, 2, 3]))), rng.sample(tpool, 3)))
+        rmap = {}
+        for t in m[1]:
+            rn = [T(k) for k, _ in t[1]]
+            if len(rn) >= 2 and rng.random() < 0.6:
+                a, b = rng.sample(rn, 2)
+                tw = rng.choice(twins)
+                if a not in rmap and b not in rmap and not set(tw) & (set(rmap.values()) | set(gg.RELS) - {a, b}):
+                    rmap[a], rmap[b] = tw
+        out.append(rename_model(m, tmap, rmap))
+    return out
 
 
 def constrained_cycles(rng, n):
@@ -124,7 +175,8 @@ def interlocking_cycles(rng, n, wild=False):
             refs = [[S(tname), [1, S(x)], []] for x in rng.sample(others, min(len(others), rng.choice([1, 2, 2, 3])))]
             if r in anchored:
                 # the terminal type: a plain type, or (wild) public, at any position among the restrictions
-                refs.insert(rng.randrange(len(refs) + 1), [S("user"), [2] if wild and rng.random() < 0.7 else [0], []])
+                # (two terminal types, so that a link lost between two of the cycles shows as a missing type, not only as a depth)
+                refs.insert(rng.randrange(len(refs) + 1), [S(rng.choice(["user", "user", "employee"])), [2] if wild and rng.random() < 0.7 else [0], []])
             rl.append([S(r), [1, 1]])
             ml.append([S(r), [refs, [], []]])
         # relations outside that enter the tangle (the search may start there)
@@ -133,7 +185,7 @@ def interlocking_cycles(rng, n, wild=False):
             ml.append([S("out%d" % j), [[], [], []]])
         order = list(zip(rl, ml))
         rng.shuffle(order)
-        types = [[S("user"), [], []], [S(tname), [x[0] for x in order], [[[x[1] for x in order], [], []]]]]
+        types = [[S("user"), [], []], [S("employee"), [], []], [S(tname), [x[0] for x in order], [[[x[1] for x in order], [], []]]]]
         out.append([S("1.1"), types, []])
     return out
 
